@@ -729,6 +729,8 @@ class Program:
         for f in self.functions.values():
             if f.get("file", "").startswith(REPO) and "/lib/" not in f.get("file", ""):
                 self.inlined_lambda_calls += normalize.inline_local_lambdas(f)
+        self.unrolled_loops = normalize.unroll_constant_loops(self, REPO)
+        self.scalarised_arrays = normalize.scalarise_local_arrays(self, REPO)
 
     def _pseudo(self, name, file, line, init):
         """Initialiser of a global / data member, presented as a function so that rules see its code."""
